@@ -35,3 +35,21 @@ Example C09_mutability_refused :
   exec_gate (print (Fn false None [Ref true false (Path "u8" [])] (Tup []))) (print (Fn false None [Ref true true (Path "u8" [])] (Tup []))) = RefuseSig.
 Proof. reflexivity. Qed.
 Print Assumptions C09_mutability_refused.
+
+(* "raised before anything is modified": in EVERY state of the lifetime machine — whatever fakes the injector already holds, also one
+   of the very function the refused call names — a refused installation (signature mismatch, null pointer, boolean gate) leaves memory,
+   page protections, mappings and the trace of system calls exactly as they were, keeps the injector's guards (the fakes in force stay
+   in force), leaks nothing, and the panic it raises is the one reported *)
+From Inj Require Import Base Os Injector Lifetime LifeThm.
+Theorem C09_refusal_modifies_nothing : forall c reset k w p ver,
+  match step c reset k w (OpRefuse p ver) with
+  | SPanic w' p' leak => w_os w' = w_os w /\ p' = p /\ leak = [] /\ i_guards (w_inj w') = i_guards (w_inj w)
+  | _ => False end.
+Proof. exact refusal_before_write. Qed.
+Print Assumptions C09_refusal_modifies_nothing.
+
+(* ... and the source has that shape now: the builder entry points touch nothing, the test-and-panic is the first statement of the checked calls *)
+From Inj Require SrcTieLife.
+Theorem C09_source_gate_comes_first : (SrcTieLife.src_when_called_touches_nothing && SrcTieLife.src_gate_first)%bool = true.
+Proof. exact SrcTieLife.src_refusal_shape. Qed.
+Print Assumptions C09_source_gate_comes_first.
